@@ -163,7 +163,9 @@ SRC_TIE = {
     'C02': {'Bits': ['BitArray.tolist', 'BitArray.fromlist'], 'Field': ['_get_field_length', '_field_to_iso8583', '_iso8583_to_field_frame'],
             'EncLoop': ['_dict_to_iso8583_loop', 'BitArray.fromlist'], 'Conv': ['_pytype_to_string', '_string_to_pytype'],
             'Entry': ['dumps', 'loads']},
-    'C07': {'Pds': ['_pds_to_dict', '_icc_to_dict', '_pds_to_de'], 'Field': ['_string_to_pytype']},
+    'C07': {'Pds': ['_pds_to_dict', '_icc_to_dict', '_pds_to_de'], 'Field': ['_string_to_pytype'],
+            'IpmReader': ['IpmReader.__next__', 'VbsReader.__next__'],
+            'IpmBlocked': ['IpmReaderB_next', 'VbsReaderB_next', 'Unblock1014.read']},
     'C08': {'Pds': ['_pds_to_dict', '_icc_to_dict', '_pds_to_de'], 'Bits': ['BitArray.tolist', 'BitArray.fromlist'],
             'Field': ['_get_field_length', '_iso8583_to_field_frame', '_string_to_pytype'],
             'Loop': ['_iso8583_to_dict_loop', '_iso8583_to_dict']},
